@@ -30,7 +30,8 @@ RULE = ("predicates: a recursive strategy over None, NaN, +-inf, ints, floats, b
         "output cell. multimerge: 2-4 tables with partially overlapping unique keys, key as index or named column, suffixes or "
         "not, how in {default(outer), inner} against a dict-based join model. Non-trivial: predicates: a container or a near-valid "
         "string; tables: >= 1 valid, >= 1 alias, >= 1 junk and >= 1 missing cell with a non-default option; merge: keys neither "
-        "identical nor disjoint.")
+        "identical nor disjoint."
+        " Cells also appear in other letter case / with a trailing blank next to their originals.")
 ASSUMPTIONS = ["the per-cell oracle is tidytcells itself: what is decided is pyrepseq's routing (which function, which options, which "
                "cells), copying and locality, not tidytcells' own correctness",
                "standard-column cells are strings or missing"]
@@ -162,7 +163,9 @@ POOLS = {
     "TRBJ": ["TRBJ2-4*01", "bj1.5*1", "TCRBJ2S6*01", "TRBJ1-1", "trbj2-7", "TRBJ2-2P", "unknown", ""],
     "CDR3A": ["CAVPSGAGSYQLTF", "CIVRAPGRADMRF", "AVPSGAGSYQLT", "cavf", "CAV F", "CAVX", "", "unknown", "CAVW", "ASSF"],
     "CDR3B": ["CASSLGQSGANVLTF", "CASSDWGSQNTLYF", "ASSLG", "cassf", "CAS SF", "CASXF", "", "unknown", "CASSC"],
-    "Epitope": ["GILGFVFTL", "LQPFPQPELPYPQPQ", "gilgfvftl", "not an epitope", "X123", "", "FLKEKGGL"],
+    "Epitope": ["GILGFVFTL", "LQPFPQPELPYPQPQ", "gilgfvftl", "not an epitope", "X123", "", "FLKEKGGL",
+                # free text differing only in letter case / surrounding blanks (kept verbatim, cell by cell)
+                "NOT AN EPITOPE", "Not an Epitope", "x123", "np 177", "NP 177", " np 177"],
     "MHCA": ["HLA-A*02:01", "b8", "HLA-DQA1*05", "HLA-A*02", "hla-a2", "H2-Kb", "junk", "", "HLA-B*08:01:01"],
     "MHCB": ["B2M", "b2m", "HLA-DQB1*02", "HLA-DRB1*15:01", "junk", "", "H2-Ab1"],
 }
@@ -242,7 +245,7 @@ def check_standardize(case, rec):
             kinds.add("missing")
         elif v in VALID[col]:
             kinds.add("valid")
-        elif v in ALIAS[col]:
+        elif v in ALIAS[col] or v.upper() in VALID[col]:
             kinds.add("alias")
         else:
             kinds.add("junk")
@@ -312,7 +315,11 @@ def std_case(draw, tier="quick"):
         r = []
         for c in cols:
             kind = draw(st.sampled_from(["pool", "pool", "pool", "none", "nan"]))
-            r.append(None if kind == "none" else ("<nan>" if kind == "nan" else draw(st.sampled_from(POOLS[c["std"]]))))
+            v = None if kind == "none" else ("<nan>" if kind == "nan" else draw(st.sampled_from(POOLS[c["std"]])))
+            if kind == "pool" and v and draw(st.integers(0, 5)) == 0:
+                # the same text in another letter case / with a surrounding blank, possibly next to its original in the column
+                v = draw(st.sampled_from([v.lower(), v.upper(), v.title(), v + " "]))
+            r.append(v)
         rows.append(r)
     opts = {"species": draw(st.sampled_from(["HomoSapiens", "HomoSapiens", "MusMusculus"])),
             "functional": draw(st.booleans()), "tcr_precision": draw(st.sampled_from(["gene", "allele"])),
